@@ -188,7 +188,8 @@ impl C10 {
         for (i, &w) in widths.iter().enumerate() {
             let (eds, nss) = d_common::gen_eds(rng, w);
             let dah = DataAvailabilityHeader::from_eds(&eds);
-            out.op(format!("header {}", roots_fields(&dah)), "header", false);
+            let raw_sq: Vec<Vec<u8>> = eds.data_square().iter().map(|s| s.to_vec()).collect();
+            out.op(format!("header {} w={} data={}", roots_fields(&dah), w, hxl(&raw_sq)), "header", false);
             squares.push((i as u64 + 1, eds, dah, nss));
         }
         let n = squares.len() as u64;
@@ -334,6 +335,13 @@ impl Prop for C10 {
             }
             "header" => {
                 let Some(dah) = dah_from_line(line) else { return "bad-op".into() };
+                // the square on the line is the spec's ground truth: it must be the square this DAH commits to
+                // (recomputed on every run, also for corpus / replay lines)
+                let Some(data) = arg(line, "data").and_then(unhxl) else { return "bad-op".into() };
+                match ExtendedDataSquare::new(data, "Leopard".to_string(), d_common::app()) {
+                    Ok(eds) if DataAvailabilityHeader::from_eds(&eds) == dah => {}
+                    _ => return "stale-square-on-line".into(),
+                }
                 let header = self.generator.next_with_dah(dah);
                 let h = header.height();
                 let store = self.store.clone();
